@@ -42,7 +42,7 @@ PROPS = {
                                        "NodeState::set_with_version", "ClusterState::apply_delta", "ClusterState::node_state_mut",
                                        "lemma_admitted_strictly_advances"]},
                   {"unit": U2, "fns": ["DeltaBuilder::apply_op", "DeltaBuilder::flush", "DeltaBuilder::finish", "delta_deserialize"]}],
-        "native": [N_SVV, N_C04],
+        "native": [N_SVV, N_C04, N_C06],
         "kani": [],
         "assumptions": [A_STD, A_KEY, A_SVV, A_TERM, A_INT, A_CLOCK, A_DECODE, A_TEST_CFG],
         "level_text": "Verus discharges, on the function text copied from /repo at every run, that (i) check_delta_status is exactly the admission rule, (ii) apply_delta under a well-formed delta never reaches its assert!, keeps (GC watermark, max version) lexicographically monotone, changes nothing on Reject, never lowers a stored version without a reset and only resets with a strictly higher watermark, (iii) ClusterState::apply_delta's assert! is unreachable and untouched members are framed, (iv) every effective local write gets version max+1 and a same-value re-set changes nothing, (v) the decoder only produces well-formed deltas. All for every input and every delta length (loop invariants), i.e. for all (copy, delta) pairs whether or not an honest sender produced them.",
@@ -95,7 +95,7 @@ PROPS = {
         "verus": [{"unit": U1, "fns": ["NodeState::apply_delta", "NodeState::try_set_heartbeat", "ClusterState::apply_delta"]},
                   {"unit": U2, "fns": ["DeltaBuilder::apply_op", "DeltaBuilder::flush", "DeltaSerializer::try_add_kv", "DeltaSerializer::try_add_node",
                                        "DeltaSerializer::try_set_max_version", "DeltaSerializer::try_add_op", "DeletionStatusMutation::from"]}],
-        "native": [N_C14, N_C04, N_SVV],
+        "native": [N_C14, N_C04, N_SVV, {"test": "verif_c07_window", "pairs": ["serialize_stale_nodes"]}],
         "kani": [],
         "assumptions": [A_STD, A_KEY, A_SVV, A_TERM, A_TEST_CFG],
         "level_text": "Induction step over the transport of entries, proved: try_add_kv copies key, value, version and kind of status verbatim into the current member's op; the decoder appends a key-value to the current member only, never accepts an op before a member header or a duplicate member; apply_delta's result contains only old entries or verbatim copies of delta entries and its max version is the old one or the delta's; ClusterState::apply_delta touches only the state with the delta's id; try_set_heartbeat stores the old value or the argument and never decreases.",
